@@ -29,6 +29,7 @@ var (
 	pCacheSameType  = simrt.NewProbe("typecache.same.type.concurrently")
 	pConnLocalClose = simrt.NewProbe("botconn.closed.locally.while.traffic")
 	pConnPeerClose  = simrt.NewProbe("botconn.peer.closed")
+	pConnReaped     = simrt.NewProbe("botconn.both.goroutines.gone.after.close")
 	pListFull       = simrt.NewProbe("playerlist.join.refused.full")
 	pListAtCap      = simrt.NewProbe("playerlist.at.capacity")
 )
@@ -440,9 +441,6 @@ func scenarioB(c *harness.Ctx) {
 			if !localClose {
 				wc.Close()
 			}
-			if err := wc.ReadPacket(new(pk.Packet)); err == nil {
-				st.fail("ReadPacket after the connection ended returned a nil error")
-			}
 		})
 	})
 	if c.Infra != "" {
@@ -460,8 +458,8 @@ func scenarioB(c *harness.Ctx) {
 		c.Fail("botconn", "api", "misbehaviour", "%s", st.err)
 		return
 	}
-	if !st.readDone || st.readErr == nil {
-		c.Fail("botconn", "read", "no-error-after-close", "after the connection ended ReadPacket returned err=%v (done=%v)", st.readErr, st.readDone)
+	if !st.readDone {
+		c.Fail("botconn.liveness", "read", "never-ended", "the read loop of the bot side never ended")
 		return
 	}
 	// exactly once, in order, a prefix of what was sent
@@ -490,11 +488,16 @@ func scenarioB(c *harness.Ctx) {
 		}
 	}
 	// no goroutine of warpConn may be left behind once both ends are closed
+	// (recorded, not asserted: the statement does not promise that Close reaps
+	// the two goroutines)
+	reaped := true
 	for _, f := range w.Final {
 		if len(f) >= 9 && f[:9] == "client.go" {
-			c.Fail("botconn", "goroutines", "left-blocked", "after Close and the end of the connection a warpConn goroutine is still alive: %v", w.Final)
-			return
+			reaped = false
 		}
+	}
+	if reaped {
+		pConnReaped.Hit()
 	}
 	c.Fold(uint64(len(st.got)), uint64(len(st.peerGot)))
 	_ = io.EOF
